@@ -17,7 +17,7 @@ REASONS = {
     "C11": {"midpoint_not_clock", "radius"},
     "C12": {"reply_to_malformed", "no_reply_to_valid", "version_fields"},
     "C16": {"batch_larger_than_configured"},
-    "C17": {"stats_valid_requests", "stats_invalid_requests", "stats_responses", "stats_bytes"},
+    "C17": {"stats_valid_requests", "stats_invalid_requests", "stats_responses", "stats_bytes", "stats_failed_sends"},
     "C20": {"leak", "leak_in_log"},
 }
 
@@ -103,6 +103,19 @@ def sample_round(c, events, pred=None):
 
 def stats_wiring_stage(c):
     """C17: traffic wiring of a running Server's recorder (both recorder kinds)"""
+    # spec->code: Server.tla with the recorder wired into the loop and the kind "U" (valid request whose response cannot be
+    # sent): StatsConserve / StatsResponses / StatsSettled / StatsAreTraffic model-checked; every arrival schedule replayed
+    sched = vlib.workfile(c.pid, "wiring_schedules.ndjson")
+    with open(sched, "w") as f:
+        res = vlib.run_tlc("MC_Server", "MC_Server_U2.cfg", "%s/mc_srv" % c.pid, workers=8, timeout=1800,
+                           print_sink=lambda o: f.write(json.dumps(o) + "\n"))
+    vlib.expect_model_ok(res, "Server.tla (statistics wiring, unroutable sources)")
+    c.add_model("MC_Server/U2 (StatsConserve, StatsResponses, StatsSettled, StatsAreTraffic)", res)
+    m = vlib.run_tlc("MC_Server", "MC_Server_pinned_stats.cfg", "%s/mc_srv_selftest" % c.pid, workers=4, timeout=300, collect_prints=False)
+    if m.violated != "StatsResponses":
+        raise vlib.ToolError("Server.tla self-test: a failure flag that outlives its response should violate StatsResponses")
+    c.notes.append("Server.tla self-test: StaleFailFlag=TRUE violates StatsResponses")
+    server_stage(c, "interleavings", "wiring_sched", inp=sched)
     events, _ = server_stage(c, "stats,mixed", "wiring")
     for e in events:
         if e.get("ev") == "stats":
